@@ -42,7 +42,10 @@ def run(chk):
     mc = ceremony(p, "make_credential")
     ga = ceremony(p, "get_assertion")
     u2f_trait = [t for t in p.traits.values() if t["path"].endswith("::U2fApi")]
-    ur = p.async_body(p.method(AUTH, "register", trait=u2f_trait[0]["path"])) if u2f_trait else None
+    from . import inline, normal, summary
+    from .common import keep_named
+    N = normal.Normalizer(p, summary.Summaries(p))
+    ur = inline.inlined(p, p.async_body(p.method(AUTH, "register", trait=u2f_trait[0]["path"])), keep=(keep_named,)) if u2f_trait else None
     if not chk.require("R1 save is the last fallible step", "R1|ceremonies", mc is not None and ga is not None, AUTH, "ceremony bodies not found"):
         return
     for b in (mc, ga, ur):
@@ -101,14 +104,14 @@ def run(chk):
             if a.call is None or not names.call_is(a.call, *pats):
                 continue
             which = core.callee_of(a.call).rsplit("::", 1)[-1]
-            ok, wit, _oke, _bade = flow.failure_is_error(p, co, flow.await_pred(a), T)
+            ok, wit, _oke, _bade = flow.failure_is_error(p, co, flow.await_pred(a), T, norm=N.norm)
             if not ok:
                 wit = "the awaited result of %s: %s" % (which, wit)
             chk.ob("R2 error discipline", "R2|%s|%s" % (nm, which), ok, where(co, a.call_bb), wit)
 
     # ---------------- R3
     cer = {"make_credential": mc, "get_assertion": ga, "U2fApi::register": ur}
-    u2fa = p.async_body(p.method(AUTH, "authenticate", trait=u2f_trait[0]["path"])) if u2f_trait else None
+    u2fa = inline.inlined(p, p.async_body(p.method(AUTH, "authenticate", trait=u2f_trait[0]["path"])), keep=(keep_named,)) if u2f_trait else None
     if u2fa is not None:
         cer["U2fApi::authenticate"] = u2fa
     expect = {"make_credential": ["save_credential"], "get_assertion": ["update_credential"], "U2fApi::register": ["save_credential"], "U2fApi::authenticate": []}
